@@ -20,7 +20,7 @@ func TestVerifGenFlights(t *testing.T) {
 	for _, v := range c02Variants() {
 		v := v
 		var res c02Case
-		vBubble(t, func(t *testing.T) { res = runC02(t, v, nil, 0, false) })
+		vBubble(t, func(t *testing.T) { res = runC02(t, v, nil, c02Opt{}) })
 		if !(res.CDone && res.SDone && res.CErr == "ok" && res.SErr == "ok") {
 			fmt.Fprintf(&b, "(* variant %s: fault-free handshake did not complete: client=%q server=%q *)\n", v.Name, res.CErr, res.SErr)
 
